@@ -15,8 +15,8 @@ from ginsim import probes, shrink, world
 
 ID = 'C11'
 LEVEL = 'exploration'
-QUICK_RUNS = 4000
-THOROUGH_RUNS = 80000
+QUICK_RUNS = 15000
+THOROUGH_RUNS = 400000
 SHRINK_BUDGET = 250
 RULE = ('run i draws from Random("<seed>/C11/<i>") 1-3 probes of every shape '
         '(function / class; positional, defaulted, keyword-only, *args, '
